@@ -266,6 +266,9 @@ def failing(b, kind):
     # FA%, GA% and PA are added by call_subs): the half-collected argument lists must be forgotten
     # a call (of an ordinary / a STATIC function) has already RETURNED when the statement fails: what the call
     # pushed and popped must leave the statement's own bookkeeping as it was
+    # a built-in function fails (it has a context and a call-stack entry of its own): MID$("abcd", Q%, 1) with Q% = 0
+    if kind == "builtin":
+        return b.let(var("ZS", "$"), bin_("+", lit("$", "<"), bcall("MID$", lit("$", "abcd"), q, lit("I", 2)))), 5
     if kind in ("aftercall", "afterstatic"):
         c1 = fcall("FA" if kind == "aftercall" else "FS", "I", [lit("I", 6)], 0)
         st = b.let(var("Z", "I"), bin_("/", c1, q))
@@ -305,13 +308,13 @@ def call_subs(b):
 CALLKINDS = ("argcall", "argnest", "arg2", "idxcall", "aftercall", "afterstatic")
 
 
-FKINDS = ["div", "ovf", "castovf", "subscript", "print", "argcall", "argnest", "arg2", "idxcall", "aftercall", "afterstatic"]
+FKINDS = ["div", "ovf", "castovf", "subscript", "print", "argcall", "argnest", "arg2", "idxcall", "aftercall", "afterstatic", "builtin"]
 HOSTS = ["main", "if", "ifthen", "ifelse", "elseif", "select", "selectelse", "for+", "for-", "while", "dotopwhile", "dobotuntil", "sub"]
 
 
 def fam_trap(tier, rng):
     out = []
-    fk = FKINDS if tier == "thorough" else ["div", "subscript", "ovf", "argcall", "argnest", "arg2"]
+    fk = FKINDS if tier == "thorough" else ["div", "subscript", "ovf", "argcall", "argnest", "arg2", "builtin"]
     for kind in fk:
         for host in HOSTS:
             for where in ("only", "first", "middle", "last"):
@@ -367,7 +370,7 @@ def fam_trap(tier, rng):
                     out.append({"fam": "trap:%s/%s/%s/%s" % (kind, host, where, mode), "prog": prog(main, subs)})
     # the failing statement is the last (or only) one of a block that stands inside a loop and fails in every round:
     # whatever the block keeps on the machine's stacks is released in every round
-    for kind in ("div", "subscript", "argcall"):
+    for kind in ("div", "subscript", "argcall", "builtin"):
         for host in ("select", "selectelse", "if", "ifelse", "elseif", "while", "dobotuntil", "for+"):
             for where in ("only", "last"):
                 for mode in ("resumenext", "onerrornext"):
@@ -384,6 +387,19 @@ def fam_trap(tier, rng):
                     else:
                         main = pre + [b.onerror("goto", "H"), loop] + tail + [b.label("H"), tok(b, "h", {"k": "err"}), b.resume("next")]
                     out.append({"fam": "trap-loop:%s/%s/%s/%s" % (kind, host, where, mode), "prog": prog(main, subs)})
+    # the failing statement is the very last statement of the main module (no END after it) and procedures follow: after
+    # ON ERROR RESUME NEXT the program simply ends - it does not run on into the first procedure
+    for kind in ("div", "subscript", "builtin"):
+        for nprocs in (1, 2):
+            for host in ("main", "if", "for+", "select"):
+                b = B()
+                pre = [b.dim("AR", "I", [{"lo": lit("I", 0), "hi": lit("I", 3), "nolo": False}]), b.onerror("next"), tok(b, "a")]
+                f, code = failing(b, kind)
+                core = [f] if host == "main" else wrap(b, host, [f], 1)
+                subs = [sub("PX", [], [tok(b, "in-px-nobody-calls")])]
+                if nprocs == 2:
+                    subs.insert(0, fun("FX", "I", [], [tok(b, "in-fx-nobody-calls"), b.let(var("FX", "I"), lit("I", 1))]))
+                out.append({"fam": "trap-last-main:%s/%d/%s" % (kind, nprocs, host), "prog": prog(pre + core, subs)})
     # bare RESUME after an error inside a SUB / FUNCTION: the statement is executed again IN that procedure (its locals), the
     # handler having repaired a SHARED variable
     for kind in ("sub", "fun"):
@@ -453,7 +469,7 @@ def fam_pending(tier, rng):
     """a statement fails, under a handler, inside a FUNCTION that was called while the caller had an operand
     pending: after RESUME NEXT / RESUME the caller must still find ITS operand"""
     out = []
-    for kind in ("div", "ovf", "subscript", "argnest", "aftercall", "afterstatic"):
+    for kind in ("div", "ovf", "subscript", "argnest", "aftercall", "afterstatic", "builtin"):
         for mode in ("resumenext", "onerrornext", "resume"):
             for depth, static in ((1, False), (2, False), (1, True), (2, True)):
                 b = B()
@@ -461,7 +477,7 @@ def fam_pending(tier, rng):
                 f, code = failing(b, kind)
                 # the failing statement keeps an operand on the value stack: 7 + (failing expression) where possible
                 if f["k"] == "let" and f["lhs"]["k"] == "var":
-                    f["e"] = bin_("+", lit("I", 7), par(f["e"]))
+                    f["e"] = bin_("+", lit("$", "p") if f["lhs"]["t"] == "$" else lit("I", 7), par(f["e"]))
                 fb = [b.dim("AR", "I", [{"lo": lit("I", 0), "hi": lit("I", 3), "nolo": False}]), b.let(var("M", "I"), lit("I", 32767))]
                 if mode == "resume":
                     fb.append(b.let(q, var("GQ", "I")))          # the handler repairs the SHARED GQ%; the body re-reads it
